@@ -389,7 +389,7 @@ def _run(chk, quick, rng, findings):
     chk.cov["model_distribution"] = dict(dist)
     chk.cov["timing_s"]["corpus_and_models"] = round(time.time() - t_start, 1)
     # -- the sweep (exploration) ----------------------------------------------------------------------
-    budget = (75 if quick else 1320) - (time.time() - t_start)
+    budget = (65 if quick else 1320) - (time.time() - t_start)
     specs = S.program_specs(rng, 2 if quick else 6, nstmts=3 if quick else 5)
     specs += [_spec_of(n) for n in EXTRA]
     if quick:
@@ -408,6 +408,9 @@ def _run(chk, quick, rng, findings):
     other, programs_done, attempts = {}, [], 0
     classes = list(S.all_transformations())
     t0 = time.time()
+    hist_budget = budget * (0.12 if quick else 0.25)      # two-step sweep: programs with a history
+    budget -= hist_budget
+    seeds_of_history = []
     for i, spec in enumerate(specs):
         left = budget - (time.time() - t0)
         if left < 3:
@@ -430,6 +433,9 @@ def _run(chk, quick, rng, findings):
         attempts += sw.n
         programs_done.append({"program": prog.name, "attempts": sw.n, "complete": not sw.out_of_time()})
         late.update(sw.late)
+        if "pre" not in spec:
+            for cname, (v, t, o) in sw.accepted.items():
+                seeds_of_history.append(dict(spec, pre=[[cname, v, t, o]]))
         for rec in sw.findings:
             chk.case({"sweep": rec["trans"], "program": prog.name, "target": rec["target"], "options": rec["options"]},
                      nontrivial=True, agreed=True)
@@ -437,7 +443,36 @@ def _run(chk, quick, rng, findings):
         for rec in sw.other:
             key = f"{rec['trans']}: {rec['outcome'][6:]}: {rec['message'][:70]}"
             other.setdefault(key, {"program": prog.name, "target": rec["target"], "options": rec["options"]})
+    # -- two-step sweep: an accepted transformation first, then every transformation on the result -----
+    rng.shuffle(seeds_of_history)
+    n_hist = 3 if quick else 24
+    t1 = time.time()
+    hist_done = []
+    for i, spec in enumerate(seeds_of_history[:n_hist]):
+        left = hist_budget - (time.time() - t1)
+        if left < 2:
+            break
+        prog = S.Program(spec, common.REPO)
+        try:
+            sw = S.Sweep(prog, rng, time.time() + left / (min(n_hist, len(seeds_of_history)) - i), stats)
+        except Exception:  # pylint: disable=broad-except
+            continue          # the history is not reproducible on a fresh tree: skip it
+        order = list(classes)
+        rng.shuffle(order)
+        sw.run(order, prune_after=2, keep=0.03, max_opts=(4 if quick else 12))
+        attempts += sw.n
+        hist_done.append({"program": prog.name, "after": spec["pre"][0][0], "attempts": sw.n})
+        late.update(sw.late)
+        for rec in sw.findings:
+            chk.case({"sweep": rec["trans"], "program": prog.name, "pre": spec["pre"], "target": rec["target"],
+                      "options": rec["options"]}, nontrivial=True, agreed=True)
+            report(rec, "history-sweep")
+        for rec in sw.other:
+            key = f"{rec['trans']}: {rec['outcome'][6:]}: {rec['message'][:70]}"
+            other.setdefault(key, {"program": prog.name, "pre": spec["pre"], "target": rec["target"],
+                                   "options": rec["options"]})
     chk.cov["evaluations"] += attempts
+    chk.cov["history_sweep"] = hist_done
     chk.cov["exploration_only"] = {
         "what": "generic differential sweep (not proof): transformations covered only by it are all concrete "
                 "Transformation subclasses except those under 'proved_for'",
